@@ -50,17 +50,27 @@ LOCAL = {
     "lens-mie-below": (("sphere", 1.59, 0.5, (0.17, 0.11, -5.0)),
                        ("Lens", (0.8, ("Mie", (False, False), {}), 64, 64),
                         {})),
+    # the lens wrapper around the T-matrix solver (any polarization is
+    # possible there: the wrapper only asks for amplitude matrices)
+    "lens-tm": (("spheroid", 1.59, (0.3, 0.6), (0.0, 0.4, 0.7),
+                 (0.17, 0.11, 5.0)),
+                ("Lens", (0.8, ("Tmatrix", (), {}), 40, 48), {})),
+    # a chain along x whose middle sphere is exactly at the centroid
+    "ms3-chain": (("spheres", [(1.59, 0.4, (-1.0, 0.0, 5.0)),
+                               (1.59, 0.4, (0.0, 0.0, 5.0)),
+                               (1.59, 0.4, (1.0, 0.0, 5.0))]),
+                  ("Multisphere", (), {})),
 }
 H.ST.update(LOCAL)
 STS = {"quick": ["mie", "mie2", "ms3t", "ms3a", "auto-dimer", "tm-spheroid",
-                 "tm-sphere", "mielens",
+                 "tm-sphere", "lens-tm", "ms3-chain", "mielens",
                  "mielens-below", "lens-mie", "lens-mie-uneq", "abmielens",
                  "layered"],
        "thorough": ["mie", "mie-far", "layered", "mie2", "ms3t", "ms3a",
                     "auto-dimer",
                     "tm-spheroid", "tm-cylinder", "tm-sphere", "mielens",
                     "mielens-below", "lens-mie", "lens-mie-uneq",
-                    "lens-mie-below",
+                    "lens-mie-below", "lens-tm", "ms3-chain",
                     "abmielens", "mielens2"]}
 PX = 0.1
 SHIFTS = [(1 * PX, 0.0), (0.0, -3 * PX), (2.5 * PX, 1.25 * PX),
@@ -97,6 +107,16 @@ def cases(tier, seed):
 
 def _is_ms(st):
     return st.startswith("ms") or st == "auto-dimer"
+
+
+def _polform(pol, pa):
+    """the same polarization direction in other accepted forms: a
+    three-component vector that is not of unit length for some angles"""
+    if pa == 135.0:
+        return (3.0 * pol[0], 3.0 * pol[1], 0.0)
+    if pa == 30.0:
+        return (2.0 * pol[0], 2.0 * pol[1])
+    return pol
 
 
 def _holo_field(det, scat, theory, pol):
@@ -189,6 +209,8 @@ def _run_rot(case, ck):
     tm = st.startswith("tm-")
     if tm:
         tol = 1e-7
+    if st == "lens-tm":
+        tol = 1e-4          # [floor 6e-6: T-matrix amplitudes ~1e-7]
     fps = []
     s0 = H.mk_scatterer(sspec)
     axis = np.asarray(s0.center, float).copy()
@@ -206,7 +228,8 @@ def _run_rot(case, ck):
             det1 = H.det_points(P1)
             s1 = H.mk_scatterer(_rotate_spec(sspec, R, pivot, psi))
             h0, f0 = _holo_field(det0, s0, H.mk_theory(tspec), pol0)
-            h1, f1 = _holo_field(det1, s1, H.mk_theory(tspec), pol1)
+            h1, f1 = _holo_field(det1, s1, H.mk_theory(tspec),
+                                 pol1 if tm else _polform(pol1, pa))
             ck.trans += 4
             e = float(np.abs(h1 - h0).max() / np.abs(h0).max())
             ck.metric("rotation" + ("-multisphere" if _is_ms(st) else ""), e)
